@@ -522,7 +522,9 @@ VSsetname(int32       vkey, /* IN: Vdata key */
 
     vs->marked = TRUE; /* mark vdata as being modified */
 
-    if (curr_len < slen)
+    /* a shorter name changes the header size too: written over the old, longer element it would leave a
+       stale tail, and the header is decoded from its end */
+    if (curr_len != slen)
         vs->new_h_sz = TRUE; /* mark vdata header size being changed */
 
 done:
@@ -587,7 +589,9 @@ VSsetclass(int32       vkey, /* IN: vdata key */
 
     vs->marked = TRUE; /* mark vdata as being modified */
 
-    if (curr_len < slen)
+    /* a shorter name changes the header size too: written over the old, longer element it would leave a
+       stale tail, and the header is decoded from its end */
+    if (curr_len != slen)
         vs->new_h_sz = TRUE; /* mark vdata header size being changed */
 
 done:
